@@ -3,4 +3,10 @@ import EqsigVerif.Lemmas.Peaks.Runs
 import EqsigVerif.Lemmas.Peaks.Kappa
 import EqsigVerif.Lemmas.Peaks.Segments
 import EqsigVerif.Lemmas.Peaks.Orig
+import EqsigVerif.Lemmas.Peaks.Shape
+import EqsigVerif.Lemmas.Peaks.PType
+import EqsigVerif.Lemmas.Peaks.Put
+import EqsigVerif.Lemmas.Peaks.Series
+import EqsigVerif.Lemmas.Peaks.Delta
+import EqsigVerif.Lemmas.Peaks.Pseudo
 /-! umbrella for the helper lemmas on `Model/Peaks.lean` (C11, C13) -/
